@@ -1,0 +1,15 @@
+//go:build verif
+
+// Contracts for the deductive checker in /verif (comment-only; compiled only with -tags verif).
+
+package off
+
+//@ func (Writer).Close
+//@   trusted
+//@   modifies any(os.File).closed
+//@ func (Writer).Flush
+//@   trusted
+//@   modifies nothing
+//@ func NewWriter
+//@   trusted
+//@   ensures result != nil && fresh(result)
